@@ -27,11 +27,26 @@ const inflightPer = 6 * 5 * 2 * 3
 
 func inflightN(tier string) int { return vlib.TierN(tier, 3*inflightPer, 36*inflightPer) }
 
+func randomN(tier string) int { return vlib.TierN(tier, 600, 320000) }
+
+// startupPer is one full enumeration of the start-up class ((who, hold) x event x subscriber kind).
+const startupPer = 7 * 4 * 2
+
+func startupN(tier string) int { return vlib.TierN(tier, 4*startupPer, 80*startupPer) }
+
+// rejectedPer is one full enumeration of the rejected-call class (call x position x ending x subscriber kind).
+const rejectedPer = 3 * 6 * 4 * 2
+
+func rejectedN(tier string) int { return vlib.TierN(tier, 2*rejectedPer, 40*rejectedPer) }
+
 func init() {
 	vlib.Register(&vlib.Prop{
 		ID:    "C10",
 		Level: "exploration",
-		Cases: func(tier string) int { return forcedCases + inflightN(tier) + vlib.TierN(tier, 600, 320000) },
+		// the classes added later come last, so that the case indices (and per-case PRNGs) of the earlier classes never move
+		Cases: func(tier string) int {
+			return forcedCases + inflightN(tier) + randomN(tier) + startupN(tier) + rejectedN(tier)
+		},
 		Rule: "forced part: the RunHandlers goroutine is parked right after a handler's Started() channel closed; the goroutine that waited on Started() then calls Stop() and Stopped() (must not panic, Stopped() must be non-nil) and, after the release, Stopped() must close; " +
 			"while still parked, a second Run is issued (must be refused with an error); optionally the Run context is cancelled during the start-up (Run must still return nil); x {handler added before Run, added after Run and started by RunHandlers} x {1..3 handlers} x {scripted, GoChannel subscriber} x repeats. " +
 			"in-flight part: one message of the target handler is parked at a stage of the pipeline {held by the router's subscriber decorator before it is handed to the handler loop (with the handler loop free, or itself parked with an earlier message so that only the cancel branch is ready), " +
@@ -40,12 +55,21 @@ func init() {
 			"random part: lifecycle programs over {AddHandler before/after Run, Run, RunHandlers x1..4 sequentially or concurrently, wait Started, emit a message the instant Running() closes, Stop a subset, emit again, end by stopping all handlers / cancelling the Run context / Close / the subscribers closing every subscription, second Run} with 1..5 handlers, " +
 			"scripted subscribers that count Subscribe calls or one GoChannel, private or shared publishers, yield injection at the router hook points; " +
 			"0..3 redundant Run calls on the running router (each must be refused with an error, with a context of its own that is cancelled afterwards) placed at random points of the program {right after Running(), after late AddHandler, after RunHandlers, after the Stops}, after which the program simply continues (RunHandlers must still start the late handlers, Stop/self-close must still work, a further Run is refused again); " +
-			"optionally background traffic: 1..2 publisher goroutines per handler keep emitting while handlers are stopped and the router is ended (Stop / cancel / Close race with messages on their way through the subscriber decorator and the handler loop); optionally a repeated Stop() of an already stopped handler; optionally a RunHandlers call before Run (refused, the program goes on). " +
+			"optionally background traffic: 1..2 publisher goroutines per handler keep emitting while handlers are stopped and the router is ended (Stop / cancel / Close race with messages on their way through the subscriber decorator and the handler loop); optionally a repeated Stop() of an already stopped handler; optionally a RunHandlers call before Run (refused, the program goes on); " +
+			"optionally (30%) one AddHandler / AddNoPublisherHandler call with the name of a handler that is still registered at one of {before Run, after Running(), after the late AddHandler calls, after RunHandlers, after the Stops}: it panics with DuplicateHandlerNameError, the harness recovers and the program goes on as if the call had not been made. " +
+			"start-up part: a RunHandlers call that has 2..5 handlers to start - Run's own start-up, or an explicit RunHandlers call for 2..4 handlers added after Run with 0..2 handlers running already - is held in the middle {parked at the hook right after the Started() channel of the k-th handler closed with >= 1 handler left to start, held inside the Subscribe call of a scripted subscriber with >= 1 more handler to follow, " +
+			"parked between RunHandlers returning and Running() closing, or not held at all but slowed down by yield injection and scripted Subscribe calls that take 0..300 us, the event being issued by the goroutine that sees the k-th Started() close}; in that window the harness issues one event {Close (1 or 2 concurrent calls), cancel of the Run context, Stop of every handler that runs already (incl. optionally the earlier ones: the last running handler ends while others are still to be started), " +
+			"the subscribers closing the subscriptions made so far (scripted) / Close and cancel together (GoChannel)}, lets the event get as far as it can (quiescence) and releases the hold: x {scripted, GoChannel subscriber} x repeats. After Close / cancel: the RunHandlers call returns, Close returns, the router closes and Run returns nil, a second Run is refused (whether the handlers not yet started are still started is not judged). " +
+			"After Stop / subscriptions closed: the start-up completes (Running() closes with every handler subscribed, resp. RunHandlers returns and every Started() closes), Stopped() of the stopped handlers closes, the others handle a new message, then the rest is ended {Stop all, cancel, Close, subscriptions closed} and the router closes itself, Run returns nil; one Subscribe per started handler. " +
+			"rejected-call part: {AddHandler, AddNoPublisherHandler, both} with a name still in use (refused: panics with DuplicateHandlerNameError, recovered by the harness) at {before Run, while Run is parked in the middle of starting handlers, after Running(), after late AddHandler calls (the name may be that of a registered handler not started yet), after RunHandlers, after a Stop} x ending {Stop all, cancel of the Run context, Close, subscriptions closed} x {scripted, GoChannel} x repeats, 1..3 handlers before Run + 1..2 late; " +
+			"optionally the name of a handler that has stopped is used again (accepted: RunHandlers must start the new handler once and it handles a message; refused: not judged). The whole remaining program is judged as if the refused call had not been made: Running() and the message emitted at that instant, RunHandlers starting the late handlers once, Stop ending one handler while the others keep handling, the router closing itself when the last handler ends / the Run context is cancelled / Close, Run returning nil, no Subscribe on the subscriber of a refused call. " +
 			"Oracle: when Running() is observed closed every handler added before Run holds a subscription and a message emitted at that instant is handled; exactly one Subscribe per handler whatever the number of RunHandlers calls; after Started(): Stop() does not panic, Stopped() is non-nil and closes; " +
 			"after stopping a handler, handlers that do not share its publisher still handle new messages; when the last handler ends or the Run context is cancelled Run returns nil (quiescence detector); a second Run returns an error. " +
-			"Non-trivial: forced point reached / in-flight stage reached / program contained RunHandlers repetition, a Stop or a post-Running emission. Distinct = (program, hook fingerprint).",
+			"Non-trivial: forced point reached / in-flight stage reached / program contained RunHandlers repetition, a Stop or a post-Running emission / the start-up event was issued with >= 1 handler still to start (or before Running() closed) / >= 1 call was refused. Distinct = (program, hook fingerprint).",
 		Assumptions: []string{
 			"handlers are not added while the router is shutting down; subscribers honour their context (message.Subscriber contract)",
+			"start-up part: RunHandlers is called with the Run context; after Close / cancel during a start-up nothing is demanded about the handlers that were not started yet (started and torn down, or never started: both accepted)",
+			"rejected-call part: a refused call is one that panics with a value the caller recovers; should AddHandler accept a name that is still registered the case is inconclusive (no model of two handlers under one name), never a violation",
 			"data races are recorded in the evidence but only panics/wrong outcomes fail this property",
 		},
 		Run: run,
@@ -56,13 +80,21 @@ func run(e *vlib.Env) vlib.Result {
 	if e.Idx < forcedCases {
 		return forced(e)
 	}
-	if j := e.Idx - forcedCases; j < inflightN(e.Tier) {
+	j := e.Idx - forcedCases
+	if j < inflightN(e.Tier) {
 		return inflight(e, j)
 	}
-	return random(e)
+	if j -= inflightN(e.Tier); j < randomN(e.Tier) {
+		return random(e)
+	}
+	if j -= randomN(e.Tier); j < startupN(e.Tier) {
+		return startup(e, j)
+	}
+	return rejected(e, j-startupN(e.Tier))
 }
 
 type hrec struct {
+	k       int
 	name    string
 	topic   string
 	sub     *vlib.Sub
@@ -187,6 +219,8 @@ func forced(e *vlib.Env) vlib.Result {
 			return false
 		}
 	}, wo)
+	// the hook call follows the close of Started() in the RunHandlers goroutine: the user goroutine may have been quicker
+	vlib.WaitUntil(park.HasArrived, wo)
 	reached := park.HasArrived()
 	// a second Run arriving while the first one is still starting handlers must be refused with an error
 	type run2 struct {
@@ -592,6 +626,8 @@ func orNone(s string) string {
 
 var refusedPoints = []string{"after-running", "after-add", "after-runhandlers", "after-stops"}
 
+var dupPoints = []string{"before-run", "after-running", "after-add", "after-runhandlers", "after-stops"}
+
 func b2i(b bool) int {
 	if b {
 		return 1
@@ -639,7 +675,18 @@ func random(e *vlib.Env) vlib.Result {
 	trafficN := rnd.Range(10, 60)
 	stopTwice := rnd.Chance(0.3)
 	earlyRH := rnd.Chance(0.15)
+	// an AddHandler / AddNoPublisherHandler call with a name that is still registered, at one point of the program: it is
+	// refused (panics with DuplicateHandlerNameError), the caller recovers, the program goes on as if it had not been made.
+	// (Drawn from a PRNG of its own so that the programs of earlier rounds stay what they were.)
+	x := vlib.NewRand(e.Seed, "C10/refused-addhandler", e.Idx)
+	dupAt, dupNoPub := "", x.Bool()
+	if x.Chance(0.3) {
+		dupAt = dupPoints[x.Intn(len(dupPoints))]
+	}
 	spec := fmt.Sprintf("handlers=%d late=%d gochannel=%v runHandlersCalls=%d concurrent=%v sharedPublisher=%v stop=%d ending=%s yield=%.1f refusedRun=[%s] traffic=%dx%d stopTwice=%v runHandlersBeforeRun=%v", nh, nlate, useGC, rhCalls, rhConcurrent, sharePub, nstop, ending, yieldP, refusedSpec, traffic, trafficN, stopTwice, earlyRH)
+	if dupAt != "" {
+		spec += fmt.Sprintf(" refusedAddHandler=%s noPublisher=%v", dupAt, dupNoPub)
+	}
 	res := vlib.Result{Class: fmt.Sprintf("random/gochannel=%v/%s", useGC, ending), Spec: spec}
 	r, _ := message.NewRouter(message.RouterConfig{CloseTimeout: time.Hour}, watermill.NopLogger{})
 	ctl := vlib.NewCtl(rnd.Uint64(), yieldP, 80)
@@ -677,6 +724,46 @@ func random(e *vlib.Env) vlib.Result {
 	for k := 0; k < nh-nlate; k++ {
 		add(k)
 	}
+	var rejSubs []*vlib.Sub
+	refusedAdds := 0
+	dup := func(where string) {
+		if dupAt != where || res.Failed() {
+			return
+		}
+		var cands []*hrec
+		for _, h := range hrs {
+			if h != nil && !h.stopped {
+				cands = append(cands, h)
+			}
+		}
+		if len(cands) == 0 {
+			return
+		}
+		t := cands[x.Intn(len(cands))]
+		sub := &vlib.Sub{Name: id + "-refused"}
+		rejSubs = append(rejSubs, sub)
+		var p any
+		if dupNoPub {
+			p = safely(func() {
+				r.AddNoPublisherHandler(t.name, id+"/refused", sub, func(*message.Message) error { return nil })
+			})
+		} else {
+			p = safely(func() {
+				r.AddHandler(t.name, id+"/refused", sub, id+"/refused/out", &vlib.Pub{Name: id + "-refused"}, func(*message.Message) ([]*message.Message, error) { return nil, nil })
+			})
+		}
+		if p == nil {
+			res.Inconclusive("AddHandler accepted a name that is still registered: outside the programs this check judges (%s)", spec)
+			return
+		}
+		refusedAdds++
+	}
+	defer func() {
+		for _, s := range rejSubs {
+			s.Close()
+		}
+	}()
+	dup("before-run")
 	ctx, cancel := context.WithCancel(context.Background())
 	defer cancel()
 	if rnd.Chance(0.08) {
@@ -701,6 +788,7 @@ func random(e *vlib.Env) vlib.Result {
 			}
 		}
 		res.Events = 2
+		res.Count("refused_addhandler_calls", refusedAdds)
 		res.NonTrivial = true
 		res.Sig = vlib.Sig("cancelled-before-run", spec)
 		res.Sample = map[string]any{"program": "cancel the context, then Run: " + spec}
@@ -782,11 +870,13 @@ func random(e *vlib.Env) vlib.Result {
 	}
 
 	refused("after-running")
+	dup("after-running")
 	// late handlers + RunHandlers xN
 	for k := nh - nlate; k < nh; k++ {
 		add(k)
 	}
 	refused("after-add")
+	dup("after-add")
 	if nlate > 0 && !res.Failed() {
 		var wg sync.WaitGroup
 		var rhErr atomic.Value
@@ -832,6 +922,7 @@ func random(e *vlib.Env) vlib.Result {
 		}
 	}
 	refused("after-runhandlers")
+	dup("after-runhandlers")
 	// background traffic from here on
 	if traffic > 0 && !res.Failed() {
 		for _, h := range hrs {
@@ -928,6 +1019,7 @@ func random(e *vlib.Env) vlib.Result {
 		}
 	}
 	refused("after-stops")
+	dup("after-stops")
 	for _, h := range hrs {
 		if res.Failed() || h.stopped || stoppedPubs[h.pub] || h == busy {
 			continue
@@ -995,6 +1087,12 @@ func random(e *vlib.Env) vlib.Result {
 			}
 		}
 	}
+	for _, s := range rejSubs {
+		events++
+		if n := s.SubCalls.Load(); n != 0 && !res.Failed() {
+			res.Fail("rejected-handler-subscribed", "an AddHandler call was rejected (duplicate name) but its subscriber got %d Subscribe call(s): %s", n, spec)
+		}
+	}
 	// teardown
 	cancel()
 	done := make(chan struct{})
@@ -1006,6 +1104,7 @@ func random(e *vlib.Env) vlib.Result {
 	ed := make(chan struct{})
 	go func() { emitWg.Wait(); close(ed) }()
 	vlib.WaitClosed(ed, wo)
+	res.Count("refused_addhandler_calls", refusedAdds)
 	for k := 0; k < 3; k++ {
 		runtime.Gosched()
 	}
@@ -1023,4 +1122,839 @@ func random(e *vlib.Env) vlib.Result {
 	res.Sig = vlib.Sig(spec, ctl.Fingerprint())
 	res.Sample = map[string]any{"program": spec}
 	return res
+}
+
+// ---------------------------------------------------------------------------------------------
+// scaffolding shared by the start-up class and the rejected-call class
+
+type world struct {
+	res     *vlib.Result
+	spec    string
+	id      string
+	r       *message.Router
+	useGC   bool
+	ps      *gochannel.GoChannel
+	ctx     context.Context
+	cancel  context.CancelFunc
+	runDone chan struct{}
+	runErr  error
+	emitWg  sync.WaitGroup
+	hs      []*hrec     // accepted handlers, in the order of registration
+	rejSubs []*vlib.Sub // subscribers handed to AddHandler calls that were rejected
+	events  int
+	// onSubscribe runs inside Subscribe of a scripted subscriber (RunHandlers holds the router's handlersLock there)
+	onSubscribe func(h *hrec)
+	// releases of everything the case may still hold (parks, held Subscribe calls); idempotent functions
+	releases []func()
+}
+
+func newWorld(e *vlib.Env, res *vlib.Result, spec string, useGC bool) *world {
+	w := &world{res: res, spec: spec, id: e.ID(), useGC: useGC, runDone: make(chan struct{})}
+	w.r, _ = message.NewRouter(message.RouterConfig{CloseTimeout: time.Hour}, watermill.NopLogger{})
+	if useGC {
+		w.ps = gochannel.NewGoChannel(gochannel.Config{}, watermill.NopLogger{})
+	}
+	w.ctx, w.cancel = context.WithCancel(context.Background())
+	return w
+}
+
+// add registers handler number k (generation gen > 0: the name of a handler that has ended is used again).
+// It returns the value AddHandler panicked with, if it did.
+func (w *world) add(k, gen int) (*hrec, any) {
+	h := &hrec{k: k, name: fmt.Sprintf("%s/h%d", w.id, k), topic: fmt.Sprintf("%s/t%d.%d", w.id, k, gen)}
+	h.sub = &vlib.Sub{Name: fmt.Sprintf("%s-%d.%d", w.id, k, gen)}
+	h.sub.OnSubscribe = func(string) {
+		if f := w.onSubscribe; f != nil {
+			f(h)
+		}
+	}
+	h.pub = &vlib.Pub{Name: fmt.Sprintf("%s-%d.%d", w.id, k, gen)}
+	var sub message.Subscriber = h.sub
+	if w.useGC {
+		sub = w.ps
+	}
+	p := safely(func() {
+		h.h = w.r.AddHandler(h.name, h.topic, sub, h.topic+"/out", h.pub, func(m *message.Message) ([]*message.Message, error) {
+			h.handled.Add(1)
+			return []*message.Message{message.NewMessage(m.UUID+"/o", nil)}, nil
+		})
+	})
+	if p == nil {
+		w.hs = append(w.hs, h)
+	}
+	return h, p
+}
+
+func (w *world) emit(h *hrec, tag string) bool {
+	uuid := fmt.Sprintf("%s/%s", h.topic, tag)
+	if w.useGC {
+		return w.ps.Publish(h.topic, message.NewMessage(uuid, nil)) == nil
+	}
+	sp := h.sub.SubFor(h.topic)
+	if sp == nil {
+		return false
+	}
+	w.emitWg.Add(1)
+	go func() { defer w.emitWg.Done(); sp.Deliver(message.NewMessage(uuid, nil), 0) }()
+	return true
+}
+
+func (w *world) expectHandled(h *hrec, want int32, clause, what string) {
+	w.events++
+	if oc, d := vlib.WaitUntil(func() bool { return h.handled.Load() >= want }, wo); oc == vlib.Stuck {
+		w.res.Fail(clause, "%s: handler %s handled %d message(s), want %d (quiescent): %s", what, h.name, h.handled.Load(), want, w.spec)
+		w.res.Witness = d
+	} else if oc == vlib.Inconclusive {
+		w.res.Inconclusive("%s: neither handled nor quiescent", what)
+	}
+}
+
+// emitAndExpect sends one new message to a started handler and demands that it is handled.
+func (w *world) emitAndExpect(h *hrec, tag, clause, what string) {
+	want := h.handled.Load() + 1
+	if w.emit(h, tag) {
+		w.expectHandled(h, want, clause, what)
+	} else {
+		w.events++
+		w.res.Fail(clause, "%s: handler %s has no subscription: %s", what, h.name, w.spec)
+	}
+}
+
+func (w *world) startRun() {
+	go func() { defer close(w.runDone); w.runErr = w.r.Run(w.ctx) }()
+}
+
+func (w *world) waitRunning(what string) bool {
+	w.events++
+	oc, d := vlib.WaitClosed(w.r.Running(), wo)
+	if oc == vlib.Stuck {
+		w.res.Fail("running-never-closed", "%sRunning() never closed (quiescent): %s", what, w.spec)
+		w.res.Witness = d
+	} else if oc == vlib.Inconclusive {
+		w.res.Inconclusive("Running(): neither closed nor quiescent")
+	}
+	return oc == vlib.Done
+}
+
+// runHandlers calls RunHandlers and waits for it (the call is made on a goroutine of its own: it may never return).
+func (w *world) runHandlers(what string) bool {
+	done := make(chan struct{})
+	var err error
+	go func() { defer close(done); err = w.r.RunHandlers(w.ctx) }()
+	w.events++
+	oc, d := vlib.WaitClosed(done, wo)
+	switch {
+	case oc == vlib.Stuck:
+		w.res.Fail("runhandlers-stuck", "%s: RunHandlers never returned (quiescent): %s", what, w.spec)
+		w.res.Witness = d
+	case oc == vlib.Inconclusive:
+		w.res.Inconclusive("RunHandlers: neither returned nor quiescent")
+	case err != nil:
+		w.res.Fail("runhandlers-error", "%s: RunHandlers returned %v: %s", what, err, w.spec)
+	}
+	return oc == vlib.Done && err == nil
+}
+
+func (w *world) waitStarted(h *hrec, what string) bool {
+	w.events++
+	oc, d := vlib.WaitClosed(h.h.Started(), wo)
+	if oc == vlib.Stuck {
+		w.res.Fail("started-never-closed", "%s: Started() of handler %s never closed (quiescent): %s", what, h.name, w.spec)
+		w.res.Witness = d
+	} else if oc == vlib.Inconclusive {
+		w.res.Inconclusive("Started(): neither closed nor quiescent")
+	}
+	return oc == vlib.Done
+}
+
+// stop calls Stop() on a started handler and returns its Stopped() channel (nil after a failure).
+func (w *world) stop(h *hrec, what string) chan struct{} {
+	w.events++
+	h.stopped = true
+	if p := safely(func() { h.h.Stop() }); p != nil {
+		w.res.Fail("stop-panics-after-started", "%s: Stop() of %s panicked after Started() closed: %v (%s)", what, h.name, p, w.spec)
+		return nil
+	}
+	var st chan struct{}
+	safely(func() { st = h.h.Stopped() })
+	if st == nil {
+		w.res.Fail("stopped-nil-after-started", "%s: Stopped() of %s is nil after Started() closed: %s", what, h.name, w.spec)
+	}
+	return st
+}
+
+func (w *world) waitStopped(h *hrec, st chan struct{}, what string) {
+	if st == nil {
+		return
+	}
+	w.events++
+	if oc, d := vlib.WaitClosed(st, wo); oc == vlib.Stuck && !w.res.Failed() {
+		w.res.Fail("stopped-never-closes", "%s: Stop() of %s was called after Started() closed but Stopped() never closed (quiescent): %s", what, h.name, w.spec)
+		w.res.Witness = d
+	} else if oc == vlib.Inconclusive {
+		w.res.Inconclusive("Stopped(): neither closed nor quiescent")
+	}
+}
+
+// end performs the ending of the program on the handlers that are still running and judges the router's own end.
+func (w *world) end(ending, what string) {
+	var closeDone chan struct{}
+	switch ending {
+	case "stop-all":
+		for _, h := range w.hs {
+			if !h.stopped && vlib.IsClosed(h.h.Started()) {
+				h.stopped = true
+				h.h.Stop()
+			}
+		}
+		what += "; then every remaining handler was stopped (the last handler ended)"
+	case "cancel-ctx":
+		w.cancel()
+		what += "; then the Run context was cancelled"
+	case "close":
+		closeDone = make(chan struct{})
+		go func() { w.r.Close(); close(closeDone) }()
+		what += "; then Close was called"
+	case "subs-closed":
+		if w.useGC {
+			w.emitWg.Add(1)
+			go func() { defer w.emitWg.Done(); w.ps.Close() }()
+		} else {
+			for _, h := range w.hs {
+				if !h.stopped {
+					h.stopped = true
+					h.sub.Close()
+				}
+			}
+		}
+		what += "; then the subscribers closed every remaining subscription (the last handler ended)"
+	case "none":
+		// nothing is left to end: the last handler has ended already
+	}
+	w.judgeEnd(what, closeDone)
+}
+
+// judgeEnd: "when the last handler ends or the Run context is cancelled the router closes itself and Run returns nil;
+// a second Run returns an error" (and a Close that was called returns).
+func (w *world) judgeEnd(what string, closeDone chan struct{}) {
+	res := w.res
+	if res.Failed() || res.Verdict != "" {
+		return
+	}
+	w.events++
+	if closeDone != nil {
+		if oc, d := vlib.WaitClosed(closeDone, wo); oc == vlib.Stuck {
+			res.Fail("never-returned", "%s: Close never returned (quiescent): %s", what, w.spec)
+			res.Witness = d
+			return
+		} else if oc == vlib.Inconclusive {
+			res.Inconclusive("Close: neither returned nor quiescent")
+			return
+		}
+	}
+	oc, d := vlib.WaitClosed(w.runDone, wo)
+	switch {
+	case oc == vlib.Stuck:
+		res.Fail("run-never-returned", "%s: Run never returned (quiescent): %s", what, w.spec)
+		res.Witness = d
+	case oc == vlib.Inconclusive:
+		res.Inconclusive("Run: neither returned nor quiescent")
+	case w.runErr != nil:
+		res.Fail("run-error", "%s: Run returned %v instead of nil: %s", what, w.runErr, w.spec)
+	default:
+		if oc, _ := vlib.WaitUntil(func() bool { return w.r.IsClosed() }, wo); oc == vlib.Stuck {
+			res.Fail("router-not-closed", "%s: Run returned but the router is not closed: %s", what, w.spec)
+			return
+		}
+		w.events++
+		redundantRun(res, w.r, "a second Run after the router closed", w.spec)
+	}
+}
+
+// subscribeCounts: exactly one Subscribe for every handler that was started, none for a handler that was never
+// registered (its AddHandler call was rejected).
+func (w *world) subscribeCounts() {
+	res := w.res
+	for _, s := range w.rejSubs {
+		w.events++
+		if n := s.SubCalls.Load(); n != 0 && !res.Failed() {
+			res.Fail("rejected-handler-subscribed", "an AddHandler call was rejected (duplicate name) but its subscriber %s got %d Subscribe call(s): %s", s.Name, n, w.spec)
+		}
+	}
+	if w.useGC {
+		return
+	}
+	for _, h := range w.hs {
+		w.events++
+		n := h.sub.SubCalls.Load()
+		if started := vlib.IsClosed(h.h.Started()); (n > 1 || (started && n != 1)) && !res.Failed() {
+			res.Fail("subscribe-count", "handler %s (Started() closed: %v): Subscribe was called %d times: %s", h.name, started, n, w.spec)
+		}
+	}
+}
+
+func (w *world) teardown() {
+	for _, f := range w.releases {
+		f()
+	}
+	w.cancel()
+	done := make(chan struct{})
+	go func() { w.r.Close(); close(done) }()
+	vlib.WaitClosed(done, wo)
+	for _, h := range w.hs {
+		h.sub.Close()
+	}
+	for _, s := range w.rejSubs {
+		s.Close()
+	}
+	ed := make(chan struct{})
+	go func() {
+		if w.ps != nil {
+			w.ps.Close()
+		}
+		w.emitWg.Wait()
+		close(ed)
+	}()
+	vlib.WaitClosed(ed, wo)
+}
+
+// ---------------------------------------------------------------------------------------------
+// start-up class: a lifecycle event arrives while a RunHandlers call is in the middle of starting handlers
+
+var startupCombos = [][2]string{
+	{"run", "started-park"}, {"run", "subscribe-hold"}, {"run", "before-running"}, {"run", "free"},
+	{"late", "started-park"}, {"late", "subscribe-hold"}, {"late", "free"},
+}
+
+var startupActions = []string{"close", "cancel-ctx", "stop-started", "subs-closed"}
+
+var endings = []string{"stop-all", "cancel-ctx", "close", "subs-closed"}
+
+// startup: Run's own start-up loop (who=run) or an explicit RunHandlers call for several late handlers (who=late) is
+// held in the middle - parked right after a handler's Started() closed, held inside a scripted subscriber's Subscribe,
+// parked between RunHandlers returning and Running() closing - or merely slowed down (free: yield injection and
+// subscribers that take a while), and in that window Close is called / the Run context is cancelled / every handler
+// that runs already is stopped / the subscribers end the subscriptions made so far. What the property promises does
+// not depend on how far the start-up has got.
+func startup(e *vlib.Env, j int) vlib.Result {
+	rnd := e.R
+	rep := j / startupPer
+	combo := startupCombos[j%len(startupCombos)]
+	j /= len(startupCombos)
+	action := startupActions[j%len(startupActions)]
+	j /= len(startupActions)
+	useGC := j%2 == 1
+	who, hold := combo[0], combo[1]
+	if useGC && hold == "subscribe-hold" {
+		hold = "started-park" // the Subscribe call of a GoChannel cannot be held from outside
+	}
+	if useGC && action == "subs-closed" {
+		action = "close+cancel" // a GoChannel cannot end single subscriptions; both shutdown events at once instead
+	}
+	// n handlers are started by the RunHandlers call under test; early handlers (who=late) run already
+	n, early := rnd.Range(2, 5), 0
+	if who == "late" {
+		n, early = rnd.Range(2, 4), rnd.Range(0, 2)
+	}
+	pos := 0 // how many handlers of the group have been dealt with before the hold
+	switch hold {
+	case "started-park":
+		pos = rnd.Range(0, n-2)
+	case "subscribe-hold":
+		if n < 3 {
+			n = 3
+		}
+		pos = rnd.Range(1, n-2)
+	case "before-running":
+		n = rnd.Range(1, 4)
+	case "free":
+		pos = rnd.Range(1, n-1) // the event is issued when this many Started() channels have closed
+	}
+	yieldP := []float64{0, 0.3}[rnd.Intn(2)]
+	if hold == "free" {
+		yieldP = []float64{0.3, 0.6, 0.9}[rnd.Intn(3)]
+	}
+	delays := make([]int, early+n) // free: microseconds a scripted Subscribe takes (a broker round trip)
+	for k := range delays {
+		if hold == "free" {
+			delays[k] = rnd.Intn(300)
+		}
+	}
+	stopEarly := rnd.Bool()
+	closers := rnd.Range(1, 2)
+	ending := endings[rnd.Intn(len(endings))]
+	spec := fmt.Sprintf("startUpOf=%s hold=%s event=%s gochannel=%v handlers=%d runningBefore=%d position=%d yield=%.1f includeEarlierHandlers=%v concurrentCloseCalls=%d endingOfTheRest=%s",
+		who, hold, action, useGC, n, early, pos, yieldP, stopEarly, closers, ending)
+	res := vlib.Result{Class: fmt.Sprintf("startup/%s/%s/%s", who, hold, action), Spec: spec}
+	w := newWorld(e, &res, spec, useGC)
+	ctl := vlib.NewCtl(rnd.Uint64(), yieldP, 120)
+	defer ctl.Uninstall()
+
+	var group []*hrec
+	inGroup := map[string]bool{}
+	for k := early; k < early+n; k++ {
+		inGroup[fmt.Sprintf("%s/h%d", w.id, k)] = true
+	}
+	// holds
+	var park *vlib.Park
+	heldCh, holdRelease := make(chan struct{}), make(chan struct{})
+	var relOnce sync.Once
+	w.releases = append(w.releases, func() { relOnce.Do(func() { close(holdRelease) }) })
+	var subSeen atomic.Int32
+	switch hold {
+	case "started-park":
+		park = ctl.ParkAt("router.runhandlers.started", func(a, b string) bool { return inGroup[a] }, pos)
+	case "before-running":
+		park = ctl.ParkAt("router.run.before_running", nil, 0)
+	case "subscribe-hold":
+		w.onSubscribe = func(h *hrec) {
+			if inGroup[h.name] && int(subSeen.Add(1))-1 == pos {
+				close(heldCh)
+				<-holdRelease
+			}
+		}
+	case "free":
+		w.onSubscribe = func(h *hrec) {
+			if d := delays[h.k]; d > 0 {
+				vlib.TimerWait(time.Duration(d) * time.Microsecond)
+			}
+		}
+	}
+	if park != nil {
+		w.releases = append(w.releases, park.Release)
+	}
+	caseDone := make(chan struct{})
+	defer close(caseDone)
+	finish := func() vlib.Result {
+		w.teardown()
+		res.Events = w.events
+		res.Hooks = ctl.Counts()
+		res.Sig = vlib.Sig(spec, rep, res.Verdict, ctl.Fingerprint())
+		res.Sample = map[string]any{"program": spec}
+		return res
+	}
+
+	// the event, issued with the start-up in the state the hold describes
+	var (
+		closeDone    chan struct{}
+		stoppedChs   = map[*hrec]chan struct{}{}
+		unstarted    int
+		eventTargets int
+	)
+	doAction := func() {
+		var started []*hrec
+		for _, h := range group {
+			if vlib.IsClosed(h.h.Started()) {
+				started = append(started, h)
+			}
+		}
+		unstarted = n - len(started)
+		if who == "late" && stopEarly {
+			started = append(started, w.hs[:early]...)
+		}
+		switch action {
+		case "close", "close+cancel":
+			if action == "close+cancel" {
+				w.cancel()
+			}
+			closeDone = make(chan struct{})
+			var cwg sync.WaitGroup
+			for c := 0; c < closers; c++ {
+				cwg.Add(1)
+				go func() { defer cwg.Done(); w.r.Close() }()
+			}
+			go func() { cwg.Wait(); close(closeDone) }()
+		case "cancel-ctx":
+			w.cancel()
+		case "stop-started":
+			for _, h := range started {
+				stoppedChs[h] = w.stop(h, "during the start-up")
+				eventTargets++
+			}
+		case "subs-closed":
+			for _, h := range started {
+				h := h
+				h.stopped = true
+				eventTargets++
+				w.emitWg.Add(1)
+				go func() { defer w.emitWg.Done(); h.sub.Close() }()
+			}
+		}
+	}
+
+	// the program up to the start-up under test
+	addGroup := func() {
+		for k := early; k < early+n; k++ {
+			h, _ := w.add(k, 0)
+			group = append(group, h)
+		}
+	}
+	rhDone := make(chan struct{})
+	actionDone := make(chan struct{})
+	var startedSeen atomic.Int32
+	watch := func() {
+		// free: the event is issued by the goroutine that sees the pos-th Started() close, at once
+		for _, h := range group {
+			h := h
+			go func() {
+				select {
+				case <-h.h.Started():
+					if int(startedSeen.Add(1)) == pos {
+						doAction()
+						close(actionDone)
+					}
+				case <-caseDone:
+				}
+			}()
+		}
+	}
+	if who == "run" {
+		addGroup()
+		if hold == "free" {
+			watch()
+		}
+		w.startRun()
+		close(rhDone)
+	} else {
+		for k := 0; k < early; k++ {
+			w.add(k, 0)
+		}
+		w.startRun()
+		if !w.waitRunning("") {
+			return finish()
+		}
+		for _, h := range w.hs {
+			w.emitAndExpect(h, "at-running", "message-lost-after-running", "message emitted the instant Running() closed")
+		}
+		if res.Failed() {
+			return finish()
+		}
+		addGroup()
+		if hold == "free" {
+			watch()
+		}
+		go func() { defer close(rhDone); w.r.RunHandlers(w.ctx) }()
+	}
+
+	// reach the window
+	reached := false
+	if hold == "free" {
+		oc, d := vlib.WaitClosed(actionDone, wo)
+		if oc == vlib.Stuck {
+			res.Fail("started-never-closed", "%d handlers were to be started, no lifecycle event had been issued yet, and only %d Started() channel(s) closed (quiescent): %s", n, startedSeen.Load(), spec)
+			res.Witness = d
+			return finish()
+		} else if oc == vlib.Inconclusive {
+			res.Inconclusive("start-up: neither progressing nor quiescent")
+			return finish()
+		}
+		reached = true
+	} else {
+		oc, _ := vlib.WaitUntil(func() bool {
+			if park != nil {
+				return park.HasArrived()
+			}
+			return vlib.IsClosed(heldCh)
+		}, wo)
+		if oc != vlib.Done {
+			res.Verdict = vlib.Unreached
+			res.Reason = "the start-up did not reach the hold: " + spec
+			return finish()
+		}
+		reached = true
+		doAction()
+		vlib.Settle(wo) // the event gets as far as it can while the start-up is held
+		for _, f := range w.releases {
+			f()
+		}
+	}
+	duringLoop := unstarted > 0 || hold == "before-running"
+	res.NonTrivial = reached && duringLoop
+	res.Count("startup_window_reached", b2i(reached))
+	res.Count("startup_event_during_startup", b2i(duringLoop))
+	res.Count("startup_handlers_left_to_start_at_event", unstarted)
+	res.Count("startup_hold_"+hold, 1)
+	res.Count("startup_event_"+action, 1)
+
+	where := fmt.Sprintf("event %s arrived while %s was starting handlers (%d of %d left to start, hold=%s)", action, map[string]string{"run": "Run", "late": "a RunHandlers call for handlers added after Run"}[who], unstarted, n, hold)
+	switch action {
+	case "close", "close+cancel", "cancel-ctx":
+		// the RunHandlers call under test returns (whatever it returns), Close returns, the router closes, Run returns nil.
+		// Whether the handlers that were not started yet are still started is not promised either way.
+		w.events++
+		if oc, d := vlib.WaitClosed(rhDone, wo); oc == vlib.Stuck {
+			res.Fail("runhandlers-stuck", "%s: RunHandlers never returned (quiescent): %s", where, spec)
+			res.Witness = d
+		} else if oc == vlib.Inconclusive {
+			res.Inconclusive("RunHandlers: neither returned nor quiescent")
+		}
+		w.judgeEnd(where, closeDone)
+	case "stop-started", "subs-closed":
+		// the router lives on: the start-up completes, the stopped handlers end, the others work; then the rest is ended
+		if who == "run" {
+			if w.waitRunning(where+": ") && !useGC {
+				for _, h := range group {
+					w.events++
+					if h.sub.SubCalls.Load() == 0 && !res.Failed() {
+						res.Fail("running-before-subscribed", "%s: Running() is closed but handler %s has no subscription: %s", where, h.name, spec)
+					}
+				}
+			}
+		} else {
+			w.events++
+			if oc, d := vlib.WaitClosed(rhDone, wo); oc == vlib.Stuck {
+				res.Fail("runhandlers-stuck", "%s: RunHandlers never returned (quiescent): %s", where, spec)
+				res.Witness = d
+			} else if oc == vlib.Inconclusive {
+				res.Inconclusive("RunHandlers: neither returned nor quiescent")
+			}
+		}
+		for _, h := range group {
+			if !res.Failed() && res.Verdict == "" && !h.stopped {
+				w.waitStarted(h, where)
+			}
+		}
+		if action == "stop-started" {
+			for _, h := range w.hs {
+				if st, ok := stoppedChs[h]; ok && !res.Failed() && res.Verdict == "" {
+					w.waitStopped(h, st, where)
+				}
+			}
+			// "Stop ends that handler only, while handlers that do not share its publisher keep processing" (no publisher is shared here)
+			for _, h := range w.hs {
+				if !h.stopped && !res.Failed() && res.Verdict == "" {
+					w.emitAndExpect(h, "after-event", "others-broken-after-stop", where+"; message for a handler that was not stopped")
+				}
+			}
+		}
+		left := 0
+		for _, h := range w.hs {
+			if !h.stopped {
+				left++
+			}
+		}
+		res.Count("startup_handlers_running_after_event", left)
+		if left == 0 {
+			w.end("none", where+"; that ended the last handler")
+		} else {
+			w.end(ending, where)
+		}
+	}
+	w.subscribeCounts()
+	return finish()
+}
+
+// ---------------------------------------------------------------------------------------------
+// rejected-call class: a call that the API refuses as documented, then the rest of the lifecycle
+
+var rejectedCalls = []string{"dup-add", "dup-nopub", "dup-x2"}
+
+var rejectedWhens = []string{"before-run", "during-startup", "after-running", "after-late-add", "after-runhandlers", "after-stops"}
+
+// rejected: AddHandler / AddNoPublisherHandler with a name that is still registered panics with DuplicateHandlerNameError
+// ("handlerName must be unique"; the error type is exported so that callers can recover it). The caller recovers and the
+// program goes on: everything the property promises must hold as if the refused call had not been made - Running(),
+// late handlers started exactly once by RunHandlers, Stop ending one handler only, and above all the router closing
+// itself when the last handler ends / the Run context is cancelled, with Run returning nil.
+// Using the name of a handler that has ended again is not a duplicate; whichever way the router answers, the oracle
+// follows (accepted: a newly added handler that RunHandlers must start once; refused: one more refused call).
+func rejected(e *vlib.Env, j int) vlib.Result {
+	rnd := e.R
+	rep := j / rejectedPer
+	call := rejectedCalls[j%len(rejectedCalls)]
+	j /= len(rejectedCalls)
+	when := rejectedWhens[j%len(rejectedWhens)]
+	j /= len(rejectedWhens)
+	ending := endings[j%len(endings)]
+	j /= len(endings)
+	useGC := j%2 == 1
+	n, late := rnd.Range(1, 3), rnd.Range(1, 2)
+	readd := rnd.Chance(0.4)
+	yieldP := []float64{0, 0.3, 0.6}[rnd.Intn(3)]
+	spec := fmt.Sprintf("refusedCall=%s at=%s ending=%s gochannel=%v handlers=%d+%d late reuseNameOfStoppedHandler=%v yield=%.1f", call, when, ending, useGC, n, late, readd, yieldP)
+	res := vlib.Result{Class: fmt.Sprintf("rejected/%s/%s/%s", call, when, ending), Spec: spec}
+	w := newWorld(e, &res, spec, useGC)
+	ctl := vlib.NewCtl(rnd.Uint64(), yieldP, 80)
+	defer ctl.Uninstall()
+	finish := func() vlib.Result {
+		w.teardown()
+		res.Events = w.events
+		res.Hooks = ctl.Counts()
+		res.Sig = vlib.Sig(spec, rep, res.Verdict, ctl.Fingerprint())
+		res.Sample = map[string]any{"program": spec}
+		return res
+	}
+	refusedCalls := 0
+	// refused makes the call(s) with the name of one of the candidates; false: the router accepted a duplicate name
+	refused := func(cands []*hrec) bool {
+		calls := 1
+		if call == "dup-x2" {
+			calls = 2
+		}
+		for c := 0; c < calls; c++ {
+			t := cands[rnd.Intn(len(cands))]
+			sub := &vlib.Sub{Name: fmt.Sprintf("%s-refused%d", w.id, len(w.rejSubs))}
+			topic := fmt.Sprintf("%s/refused%d", w.id, len(w.rejSubs))
+			w.rejSubs = append(w.rejSubs, sub)
+			var p any
+			if call == "dup-nopub" || (call == "dup-x2" && c == 1) {
+				p = safely(func() {
+					w.r.AddNoPublisherHandler(t.name, topic, sub, func(*message.Message) error { return nil })
+				})
+			} else {
+				p = safely(func() {
+					w.r.AddHandler(t.name, topic, sub, topic+"/out", &vlib.Pub{Name: sub.Name}, func(*message.Message) ([]*message.Message, error) { return nil, nil })
+				})
+			}
+			if p == nil {
+				return false
+			}
+			refusedCalls++
+			if _, ok := p.(message.DuplicateHandlerNameError); ok {
+				res.Count("refused_with_DuplicateHandlerNameError", 1)
+			}
+		}
+		return true
+	}
+	outside := func() vlib.Result {
+		res.Inconclusive("AddHandler accepted a name that is still registered: outside the programs this class judges (%s)", spec)
+		return finish()
+	}
+	running := func() []*hrec {
+		var out []*hrec
+		for _, h := range w.hs {
+			if !h.stopped {
+				out = append(out, h)
+			}
+		}
+		return out
+	}
+	what := fmt.Sprintf("an AddHandler call with a name still in use was refused (%s, %s) and recovered", call, when)
+
+	for k := 0; k < n; k++ {
+		w.add(k, 0)
+	}
+	if when == "before-run" && !refused(w.hs) {
+		return outside()
+	}
+	if when == "during-startup" {
+		// Run is in the middle of starting the handlers when the call is made
+		names := map[string]bool{}
+		for _, h := range w.hs {
+			names[h.name] = true
+		}
+		park := ctl.ParkAt("router.runhandlers.started", func(a, b string) bool { return names[a] }, 0)
+		w.releases = append(w.releases, park.Release)
+		w.startRun()
+		if oc, _ := vlib.WaitUntil(park.HasArrived, wo); oc != vlib.Done {
+			res.Verdict = vlib.Unreached
+			res.Reason = "the start-up did not reach the park: " + spec
+			return finish()
+		}
+		done := make(chan bool, 1)
+		go func() { done <- refused(w.hs) }()
+		vlib.Settle(wo)
+		park.Release()
+		ok, got := false, false
+		if oc, _ := vlib.WaitUntil(func() bool {
+			select {
+			case ok = <-done:
+				got = true
+				return true
+			default:
+				return false
+			}
+		}, wo); oc != vlib.Done || !got {
+			res.Inconclusive("the AddHandler call made during the start-up did not return")
+			return finish()
+		}
+		if !ok {
+			return outside()
+		}
+	} else {
+		w.startRun()
+	}
+	if !w.waitRunning(what + ": ") {
+		return finish()
+	}
+	for _, h := range w.hs {
+		w.events++
+		if !useGC && len(h.sub.Subs()) == 0 && !res.Failed() {
+			res.Fail("running-before-subscribed", "%s: Running() is closed but handler %s has no subscription yet: %s", what, h.name, spec)
+		}
+	}
+	for _, h := range w.hs {
+		if !res.Failed() && res.Verdict == "" {
+			w.emitAndExpect(h, "at-running", "message-lost-after-running", what+"; message emitted the instant Running() closed")
+		}
+	}
+	if res.Failed() || res.Verdict != "" {
+		return finish()
+	}
+	if when == "after-running" && !refused(w.hs) {
+		return outside()
+	}
+	for k := n; k < n+late; k++ {
+		w.add(k, 0)
+	}
+	if when == "after-late-add" && !refused(w.hs) { // the name may be that of a handler that is registered but not started yet
+		return outside()
+	}
+	if !w.runHandlers(what) {
+		return finish()
+	}
+	for _, h := range w.hs[n:] {
+		if w.waitStarted(h, what+"; handler added after Run, RunHandlers returned") {
+			w.emitAndExpect(h, "late", "late-handler-not-processing", what+"; message for a handler started by RunHandlers")
+		}
+	}
+	if res.Failed() || res.Verdict != "" {
+		return finish()
+	}
+	if when == "after-runhandlers" {
+		if !refused(w.hs) {
+			return outside()
+		}
+		// RunHandlers once more: nothing new to start
+		if !w.runHandlers(what) {
+			return finish()
+		}
+	}
+	// stop one handler; the others keep working
+	victim := w.hs[rnd.Intn(len(w.hs))]
+	st := w.stop(victim, what)
+	w.waitStopped(victim, st, what)
+	if res.Failed() || res.Verdict != "" {
+		return finish()
+	}
+	if when == "after-stops" && !refused(running()) {
+		return outside()
+	}
+	if readd {
+		h2, p := w.add(victim.k, 1)
+		if p != nil {
+			res.Count("reused_name_refused", 1)
+		} else {
+			res.Count("reused_name_accepted", 1)
+			if !w.runHandlers(what + "; the name of the stopped handler was used again") {
+				return finish()
+			}
+			if w.waitStarted(h2, what+"; handler added under the name of a stopped handler, RunHandlers returned") {
+				w.emitAndExpect(h2, "reused", "late-handler-not-processing", what+"; message for the handler added under the name of a stopped handler")
+			}
+		}
+	}
+	for _, h := range running() {
+		if !res.Failed() && res.Verdict == "" {
+			w.emitAndExpect(h, "after-stop", "others-broken-after-stop", what+"; message for a handler that was not stopped")
+		}
+	}
+	if !res.Failed() && res.Verdict == "" {
+		w.end(ending, what)
+	}
+	w.subscribeCounts()
+	res.NonTrivial = refusedCalls > 0
+	res.Count("refused_addhandler_calls", refusedCalls)
+	res.Count("refused_at_"+when, 1)
+	return finish()
 }
